@@ -23,7 +23,7 @@
   `stack_history_wf_of_root`: while the leaf's root entry still exists, `WF` holds in full; and the
   no-orphan half of C03 holds unconditionally (`stack_history_no_orphan`).
 
-  WHAT IS PROVED (axioms: propext, Classical.choice, Quot.sound only)
+  WHAT IS PROVED (every theorem depends on propext, Classical.choice, Quot.sound at most)
     * `stack_all_preserve`   : `Stack fs → fs.AllPreserve Inv` — each of the 15 trait methods of the
       stacked filesystem, on every path string, successful / failed / panicking, and every write
       handle it returns (under write, flush, drop) keeps `Inv`. Generic form
@@ -653,7 +653,10 @@ theorem exProgram_onStack : ∀ s ∈ exProgram, s.OnStack := by
   · exact Stack.leaf 0
   · exact ⟨exDeep_stack, exAlt_stack⟩
 
-/-- the theorem applies to it -/
+/-- the theorem applies to it. (Evaluating the program with `#eval` — not part of the proof —
+gives, after step 6, leaf 0 = {"", /up, /up/low, /up/low/x, /up/sub, /up/sub/g, /up/.whiteout,
+/up/.whiteout/f_wo} and leaf 1 = {"", /h}; after step 7 leaf 0 = {""}; the stale handle publishes
+nothing; after step 10 leaf 0 = [] — the empty alternative of the invariant — and stays so.) -/
 example : Inv (runSteps exProgram { world := initWorld 2, handles := [] }).world :=
   stack_history_wf_init 2 exProgram exProgram_onStack
 
